@@ -27,6 +27,9 @@ pub enum Path {
 
 #[derive(Clone, Debug, Serialize, Deserialize)]
 pub struct Case {
+    /// v1 / v3 local: force the derived AES-CTR counter block (paseto_verif hook) for seal and unseal alike
+    #[serde(default)]
+    pub iv: Option<crate::props::c03::NonceKind>,
     /// entry points: 0 generic seal/unseal, 1 *_with_aad aliases, 2 plain aliases (when the assertion is empty)
     #[serde(default)]
     pub via: (u8, u8),
@@ -57,8 +60,10 @@ fn strat<B: Backend>(tier: Tier, public: bool) -> impl Strategy<Value = Case> {
         path,
         prop::bool::weighted(0.3),
         (0u8..3, 0u8..3),
+        if B::VER.nist() && !public { prop_oneof![4 => Just(None), 1 => crate::props::c03::nonce_kind().prop_map(Some)].boxed() } else { Just(None).boxed() },
     )
-        .prop_map(move |(key_random, key, msg, footer, assertion, path, suffix, via)| Case {
+        .prop_map(move |(key_random, key, msg, footer, assertion, path, suffix, via, iv)| Case {
+            iv,
             via,
             suffix,
             public,
@@ -210,6 +215,10 @@ where
 
 pub fn run_case<B: Backend>(c: &Case, acc: &mut Acc) -> R {
     rng::reseed_case(hash_of(&(&c.key, &c.msg, &c.footer)));
+    let _g = c.iv.as_ref().filter(|_| B::VER.nist() && !c.public).map(|k| {
+        acc.class(if k.is_wrap() { "forced-counter-block:carry" } else { "forced-counter-block:other" });
+        crate::props::c03::IvGuard::<B>::new(k.bytes(16).try_into().unwrap())
+    });
     if c.public {
         let sk: SecretKeyOf<B> = if c.key_random {
             SecretKeyOf::<B>::random().map_err(|e| Fail::new(format!("C01/{}/public/random-key", B::NAME), format!("{e}")))?
